@@ -1,10 +1,680 @@
 import SqfModel.Preproc
 /-!
 # C13 — preprocessor output equals the reference expansion; strings are inviolate
+
+The reference expander is `SqfModel/Preproc.lean` (`Sqf.Pp.run`). The check compares the implementation
+with it byte for byte on generated sources; the theorems below are what the reference guarantees for
+*every* source, so that agreement with the reference carries them over to the implementation's output.
+
+Reader (`strip`, the model of `preprocessorfileinfo::next`):
+* `C13_reader_string_inviolate` — a double-quoted string is delivered unaltered, whatever it holds;
+* `C13_reader_line_comment`, `C13_reader_block_comment` — comments are removed, newlines kept;
+* `C13_reader_continuation` — backslash-newline joins lines (in strings too, with CR LF too);
+* `strip_plain` — text without `\r`, `\` and `/` is delivered as it is.
+
+Main loop (`step`, `loop`, `runFile`, the model of `parse_file` / `parse_ppinstruction`):
+* `C13_step_string` — a string in active text reaches the output unaltered, the macro table untouched;
+* `C13_step_inactive`, `C13_inactive_silent` — in an inactive section nothing but newlines reaches the output
+  and no directive has an effect other than on the conditions;
+* `C13_directives_obeyed`, `find_define_*`, `find_undef_*`, `C13_nested_inactive` — what the directives do;
+* `C13_plain_passthrough` — text without directive, macro name or comment passes through byte for byte
+  (identifiers are looked up as maximal runs only: `idents`).
 -/
+set_option linter.unusedSimpArgs false
+set_option linter.unusedVariables false
 namespace Sqf.Props.C13
 open Sqf Sqf.Pp
 
-example : (run { files := [], root := n!"/$R" } builtins n!"a").toOption = some n!"#line 0 \"/$R/main.sqf\"\na" := by decide +kernel
+/-! ## The reader -/
+
+/-- number of newlines in a text -/
+def newlines (s : List B) : Nat := (s.filter (· = 10)).length
+
+theorem base_plain (inStr : Bool) (ln : Nat) (c : B) (h1 : c ≠ 13) (h2 : c ≠ 92) (h3 : c ≠ 34) (h4 : c ≠ 47 ∨ inStr = true) :
+    base inStr ln c = ([(c, if c = 10 then ln + 1 else ln)], RS.base inStr, if c = 10 then ln + 1 else ln) := by
+  unfold base
+  rw [if_neg h1, if_neg h2, if_neg (by intro h; cases h4 with | inl h' => exact h' h.1 | inr h' => rw [h'] at h; exact absurd h.2 (by simp)), if_neg h3]
+  split <;> simp_all
+
+theorem newlines_cons (c : B) (cs : List B) : newlines (c :: cs) = (if c = 10 then 1 else 0) + newlines cs := by
+  unfold newlines
+  by_cases h : c = 10 <;> simp [h, List.filter_cons] <;> omega
+
+/-- inside a string every character other than the quote, the backslash and the carriage return is delivered as it is -/
+theorem strip_str_body (body : List B) : ∀ (ln : Nat) (rest : List B),
+    (∀ c ∈ body, c ≠ 34 ∧ c ≠ 92 ∧ c ≠ 13) →
+    txt (strip .str ln (body ++ rest)) = body ++ txt (strip .str (ln + newlines body) rest) := by
+  induction body with
+  | nil => intro ln rest _; simp [newlines]
+  | cons c cs ih =>
+    intro ln rest h
+    have hc := h c (by simp)
+    have hcs : ∀ x ∈ cs, x ≠ 34 ∧ x ≠ 92 ∧ x ≠ 13 := fun x hx => h x (by simp [hx])
+    rw [List.cons_append, strip]
+    have hb : stepC .str ln c = ([(c, if c = 10 then ln + 1 else ln)], RS.str, if c = 10 then ln + 1 else ln) := by
+      show base true ln c = _
+      rw [base_plain true ln c hc.2.2 hc.2.1 hc.1 (Or.inr rfl)]; rfl
+    rw [hb]
+    simp only [txt, List.map_append, List.map_cons, List.map_nil, List.singleton_append, List.cons.injEq, true_and]
+    have := ih (if c = 10 then ln + 1 else ln) rest hcs
+    simp only [txt] at this
+    rw [this, newlines_cons]
+    have e : (if c = 10 then ln + 1 else ln) + newlines cs = ln + ((if c = 10 then 1 else 0) + newlines cs) := by
+      split <;> omega
+    rw [e]
+    rfl
+
+/-- **Strings are inviolate (reader)**: a double-quoted string met in code is delivered unaltered — comment
+markers, `#`, macro names inside it mean nothing — and the reader is back in code behind it. (A backslash is
+excluded because a backslash-newline pair is a line continuation inside strings too; a carriage return
+because line ends are normalised.) -/
+theorem C13_reader_string_inviolate (body rest : List B) (ln : Nat) (h : ∀ c ∈ body, c ≠ 34 ∧ c ≠ 92 ∧ c ≠ 13) :
+    txt (strip .code ln (34 :: body ++ 34 :: rest)) = 34 :: body ++ 34 :: txt (strip .code (ln + newlines body) rest) := by
+  rw [List.cons_append, strip]
+  have h1 : stepC .code ln 34 = ([(34, ln)], RS.str, ln) := by simp [stepC, base, RS.base]
+  rw [h1]
+  simp only [txt, List.map_append, List.map_cons, List.map_nil, List.singleton_append]
+  have := strip_str_body body ln (34 :: rest) h
+  simp only [txt] at this
+  rw [this, strip]
+  have h2 : stepC .str (ln + newlines body) 34 = ([(34, ln + newlines body)], RS.code, ln + newlines body) := by
+    simp [stepC, base, RS.base]
+  rw [h2]
+  simp
+
+/-- in a line comment everything up to the newline is dropped -/
+theorem strip_line_body (body : List B) : ∀ (ln : Nat) (rest : List B), (∀ c ∈ body, c ≠ 10) →
+    strip .line ln (body ++ rest) = strip .line ln rest := by
+  induction body with
+  | nil => intro ln rest _; rfl
+  | cons c cs ih =>
+    intro ln rest h
+    rw [List.cons_append, strip]
+    have hc : c ≠ 10 := h c (by simp)
+    have : stepC .line ln c = ([], RS.line, ln) := by simp [stepC, hc]
+    rw [this]
+    simpa using ih ln rest (fun x hx => h x (by simp [hx]))
+
+/-- **`//` comments are removed**, the newline that ends them stays -/
+theorem C13_reader_line_comment (body rest : List B) (ln : Nat) (h : ∀ c ∈ body, c ≠ 10) :
+    txt (strip .code ln (47 :: 47 :: body ++ 10 :: rest)) = 10 :: txt (strip .code (ln + 1) rest) := by
+  rw [List.cons_append, List.cons_append, strip]
+  have h1 : stepC .code ln 47 = ([], RS.slash, ln) := by simp [stepC, base]
+  rw [h1]
+  simp only [List.nil_append]
+  rw [strip]
+  have h2 : stepC .slash ln 47 = ([], RS.line, ln) := by simp [stepC]
+  rw [h2]
+  simp only [List.nil_append]
+  rw [strip_line_body body ln (10 :: rest) h, strip]
+  have h3 : stepC .line ln 10 = ([(10, ln + 1)], RS.code, ln + 1) := by simp [stepC]
+  rw [h3]
+  simp [txt]
+
+/-- in a block comment everything but the newlines is dropped -/
+theorem strip_block_body (body : List B) : ∀ (ln : Nat) (rest : List B), (∀ c ∈ body, c ≠ 42) →
+    txt (strip .block ln (body ++ rest)) = body.filter (· = 10) ++ txt (strip .block (ln + newlines body) rest) := by
+  induction body with
+  | nil => intro ln rest _; simp [newlines]
+  | cons c cs ih =>
+    intro ln rest h
+    have hc : c ≠ 42 := h c (by simp)
+    have hcs : ∀ x ∈ cs, x ≠ 42 := fun x hx => h x (by simp [hx])
+    rw [List.cons_append, strip]
+    by_cases hn : c = 10
+    · subst hn
+      have : stepC .block ln 10 = ([(10, ln + 1)], RS.block, ln + 1) := by simp [stepC]
+      rw [this]
+      have ih' := ih (ln + 1) rest hcs
+      simp only [txt] at ih' ⊢
+      simp only [List.map_append, List.map_cons, List.map_nil, List.singleton_append, ih', newlines_cons, if_true]
+      simp [List.filter_cons]
+      congr 2; omega
+    · have : stepC .block ln c = ([], RS.block, ln) := by simp [stepC, hn, hc]
+      rw [this]
+      have ih' := ih ln rest hcs
+      simp only [List.nil_append, ih', newlines_cons, if_neg hn]
+      simp [List.filter_cons, hn]
+
+/-- **`/* */` comments are removed**; the newlines inside them stay (so that lines keep their numbers) -/
+theorem C13_reader_block_comment (body rest : List B) (ln : Nat) (h : ∀ c ∈ body, c ≠ 42) :
+    txt (strip .code ln (47 :: 42 :: body ++ 42 :: 47 :: rest)) =
+      body.filter (· = 10) ++ txt (strip .code (ln + newlines body) rest) := by
+  rw [List.cons_append, List.cons_append, strip]
+  have h1 : stepC .code ln 47 = ([], RS.slash, ln) := by simp [stepC, base]
+  rw [h1]
+  simp only [List.nil_append]
+  rw [strip]
+  have h2 : stepC .slash ln 42 = ([], RS.block, ln) := by simp [stepC]
+  rw [h2]
+  simp only [List.nil_append]
+  rw [strip_block_body body ln (42 :: 47 :: rest) h, strip]
+  have h3 : ∀ l, stepC .block l 42 = ([], RS.star, l) := by intro l; simp [stepC]
+  rw [h3]
+  simp only [List.nil_append]
+  rw [strip]
+  have h4 : ∀ l, stepC .star l 47 = ([], RS.code, l) := by intro l; simp [stepC]
+  rw [h4]
+  simp
+
+/-- **backslash-newline joins lines**, in code and inside strings, with and without a carriage return -/
+theorem C13_reader_continuation (rest : List B) (ln : Nat) (inStr : Bool) :
+    strip (RS.base inStr) ln (92 :: 10 :: rest) = strip (RS.base inStr) (ln + 1) rest ∧
+    strip (RS.base inStr) ln (92 :: 13 :: 10 :: rest) = strip (RS.base inStr) (ln + 1) rest := by
+  cases inStr <;> simp [strip, stepC, base, RS.base]
+
+/-- text without carriage returns, backslashes and slashes is delivered as it is, whatever it holds -/
+theorem strip_plain (text : List B) : ∀ (inStr : Bool) (ln : Nat), (∀ c ∈ text, c ≠ 13 ∧ c ≠ 92 ∧ c ≠ 47) →
+    txt (strip (RS.base inStr) ln text) = text := by
+  induction text with
+  | nil => intro inStr ln _; cases inStr <;> rfl
+  | cons c cs ih =>
+    intro inStr ln h
+    have hc := h c (by simp)
+    have hcs : ∀ x ∈ cs, x ≠ 13 ∧ x ≠ 92 ∧ x ≠ 47 := fun x hx => h x (by simp [hx])
+    rw [strip]
+    have hs : stepC (RS.base inStr) ln c = base inStr ln c := by cases inStr <;> rfl
+    rw [hs]
+    by_cases hq : c = 34
+    · subst hq
+      have : base inStr ln 34 = ([(34, ln)], RS.base (!inStr), ln) := by simp [base]
+      rw [this]
+      have := ih (!inStr) ln hcs
+      simp only [txt] at this ⊢
+      simp [this]
+    · rw [base_plain inStr ln c hc.1 hc.2.1 hq (Or.inl hc.2.2)]
+      have := ih inStr (if c = 10 then ln + 1 else ln) hcs
+      simp only [txt] at this ⊢
+      simp [this]
+
+/-! ## The main loop -/
+
+theorem emit_inactive (st : St) (x : List B) (h : st.writing = false) : st.emit x = st := by
+  simp [St.emit, h]
+
+/-- what a step may do to the conditions of the file -/
+def CondsStep (c c' : List Bool) : Prop :=
+  c' = c ∨ (∃ b, c' = b :: c) ∨ (∃ b cs, c = b :: cs ∧ (c' = (!b) :: cs ∨ c' = cs))
+
+/-- **Inactive sections are silent (one step)**: while the conditionals of the file do not allow writing, a
+token or a directive — whatever it is: a macro use, a `#define`, an `#undef`, an `#include`, an unknown
+directive — leaves the macro table as it is and adds at most a newline to the output; only the conditions
+change (an `#ifdef` opens one, `#else` flips, `#endif` closes the innermost) -/
+theorem C13_step_inactive (e : Env) (f : Nat) (stack : List (List B)) (phys : List B) (st : St) (ch : Ch) (rest : List Ch)
+    (bol : Bool) (ln : Nat) (st' : St) (pos : Pos) (hw : st.writing = false)
+    (h : step e f stack phys st ch rest bol ln = .ok (st', pos)) :
+    st'.table = st.table ∧ (st'.out = st.out ∨ st'.out = st.out ++ [nl]) ∧ CondsStep st.conds st'.conds := by
+  cases f with
+  | zero => simp [step] at h
+  | succ f =>
+    obtain ⟨c, l⟩ := ch
+    rw [step] at h
+    simp only [] at h
+    split at h
+    · simp only [emit_inactive st _ hw, Except.ok.injEq, Prod.mk.injEq] at h
+      rw [← h.1]; exact ⟨rfl, Or.inl rfl, Or.inl rfl⟩
+    · split at h
+      · simp only [Except.ok.injEq, Prod.mk.injEq] at h
+        rw [← h.1]; exact ⟨rfl, Or.inr rfl, Or.inl rfl⟩
+      · split at h
+        · -- a directive
+          cases f with
+          | zero => simp [directive] at h
+          | succ f =>
+            rw [directive] at h
+            split at h
+            · simp only [Except.ok.injEq, Prod.mk.injEq] at h
+              rw [← h.1]; exact ⟨rfl, Or.inr rfl, Or.inr (Or.inl ⟨_, rfl⟩)⟩
+            · simp only [Except.ok.injEq, Prod.mk.injEq] at h
+              rw [← h.1]; exact ⟨rfl, Or.inr rfl, Or.inr (Or.inl ⟨_, rfl⟩)⟩
+            · split at h
+              · cases h
+              · next b cs hc =>
+                simp only [Except.ok.injEq, Prod.mk.injEq] at h
+                rw [← h.1]; exact ⟨rfl, Or.inr rfl, Or.inr (Or.inr ⟨b, cs, hc, Or.inl rfl⟩)⟩
+            · split at h
+              · cases h
+              · next b cs hc =>
+                simp only [Except.ok.injEq, Prod.mk.injEq] at h
+                rw [← h.1]; exact ⟨rfl, Or.inr rfl, Or.inr (Or.inr ⟨b, cs, hc, Or.inr rfl⟩)⟩
+            · simp only [hw, Bool.not_false, if_true, Except.ok.injEq, Prod.mk.injEq] at h
+              rw [← h.1]; exact ⟨rfl, Or.inr rfl, Or.inl rfl⟩
+        · split at h
+          · simp only [hw, Bool.not_false, if_true, Except.ok.injEq, Prod.mk.injEq] at h
+            rw [← h.1]; exact ⟨rfl, Or.inl rfl, Or.inl rfl⟩
+          · simp only [emit_inactive st _ hw, Except.ok.injEq, Prod.mk.injEq] at h
+            rw [← h.1]; exact ⟨rfl, Or.inl rfl, Or.inl rfl⟩
+
+/-- a run of the main loop of one file: zero or more steps (each with whatever fuel it was given) -/
+inductive Steps (e : Env) (stack : List (List B)) (phys : List B) : St × Pos → St × Pos → Prop where
+  | refl (x : St × Pos) : Steps e stack phys x x
+  | next {f : Nat} {st : St} {ch : Ch} {rest : List Ch} {b : Bool} {l : Nat} {y z : St × Pos} :
+      step e f stack phys st ch rest b l = .ok y → Steps e stack phys y z → Steps e stack phys (st, (ch :: rest, b, l)) z
+
+/-- the loop is such a run, to the end of the text -/
+theorem loop_steps (e : Env) (stack : List (List B)) (phys : List B) : ∀ (f : Nat) (st : St) (t : List Ch) (b : Bool) (l : Nat) (st' : St),
+    loop e f stack phys st t b l = .ok st' → ∃ b' l', Steps e stack phys (st, (t, b, l)) (st', ([], b', l')) := by
+  intro f
+  induction f with
+  | zero => intro st t b l st' h; simp [loop] at h
+  | succ f ih =>
+    intro st t b l st' h
+    cases t with
+    | nil =>
+      simp only [loop, Except.ok.injEq] at h
+      subst h
+      exact ⟨b, l, Steps.refl _⟩
+    | cons ch rest =>
+      rw [loop] at h
+      split at h
+      · cases h
+      · next st1 rest1 b1 l1 hs =>
+        obtain ⟨b', l', hr⟩ := ih st1 rest1 b1 l1 st' h
+        exact ⟨b', l', Steps.next hs hr⟩
+
+/-- a run all of whose steps start while writing is not allowed -/
+inductive QuietSteps (e : Env) (stack : List (List B)) (phys : List B) : St × Pos → St × Pos → Prop where
+  | refl (x : St × Pos) : QuietSteps e stack phys x x
+  | next {f : Nat} {st : St} {ch : Ch} {rest : List Ch} {b : Bool} {l : Nat} {y z : St × Pos} :
+      st.writing = false → step e f stack phys st ch rest b l = .ok y → QuietSteps e stack phys y z →
+      QuietSteps e stack phys (st, (ch :: rest, b, l)) z
+
+/-- **Text in an inactive conditional branch never reaches the output and directives there have no
+effect**: over any stretch of a file during which the conditionals do not allow writing, the macro table
+stays as it was and the output grows by newlines only (they keep the line numbers of what follows) -/
+theorem C13_inactive_silent (e : Env) (stack : List (List B)) (phys : List B) (x y : St × Pos)
+    (h : QuietSteps e stack phys x y) :
+    y.1.table = x.1.table ∧ ∃ k, y.1.out = x.1.out ++ List.replicate k nl := by
+  induction h with
+  | refl x => exact ⟨rfl, 0, by simp⟩
+  | @next f st ch rest b l y z hw hs _ ih =>
+    obtain ⟨st1, pos1⟩ := y
+    obtain ⟨ht, ho, _⟩ := C13_step_inactive e f stack phys st ch rest b l st1 pos1 hw hs
+    obtain ⟨iht, k, ihk⟩ := ih
+    refine ⟨by simpa [ht] using iht, ?_⟩
+    cases ho with
+    | inl ho => exact ⟨k, by simpa [ho] using ihk⟩
+    | inr ho =>
+      refine ⟨k + 1, ?_⟩
+      simp only [ho] at ihk
+      rw [ihk, List.append_assoc, List.replicate_succ]
+      rfl
+
+theorem emit_active (st : St) (x : List B) (h : st.writing = true) : st.emit x = { st with out := st.out ++ x } := by
+  simp [St.emit, h]
+
+theorem takeString_spec (body : List Ch) (q : Ch) (rest : List Ch) (hq : q.1 = 34) (h : ∀ c ∈ body, c.1 ≠ 34) :
+    takeString (body ++ q :: rest) = (txt body ++ [34], rest) := by
+  induction body with
+  | nil => obtain ⟨c, l⟩ := q; simp only [] at hq; subst hq; simp [takeString, quote, txt]
+  | cons c cs ih =>
+    obtain ⟨c0, l0⟩ := c
+    have hc : c0 ≠ 34 := h (c0, l0) (by simp)
+    have := ih (fun x hx => h x (by simp [hx]))
+    simp [takeString, quote, hc, this, txt]
+
+/-- **Strings are inviolate (main loop)**: a string in active text is written to the output exactly as the
+reader delivered it; neither macro names nor `#` inside it are looked at, the macro table is untouched -/
+theorem C13_step_string (e : Env) (f : Nat) (stack : List (List B)) (phys : List B) (st : St) (l : Nat) (body : List Ch) (q : Ch)
+    (rest : List Ch) (bol : Bool) (ln : Nat) (hq : q.1 = 34) (h : ∀ c ∈ body, c.1 ≠ 34) (hw : st.writing = true) :
+    ∃ l', step e (f + 1) stack phys st (34, l) (body ++ q :: rest) bol ln =
+      .ok ({ st with out := st.out ++ 34 :: txt body ++ [34] }, (rest, false, l')) := by
+  refine ⟨lastLine ((34, l) :: List.take ((txt body).length + 1) (body ++ q :: rest)) l, ?_⟩
+  rw [step]
+  simp [quote, takeString_spec body q rest hq h, emit_active _ _ hw]
+
+/-- the identifiers of a text: its maximal runs of letters, digits and underscores -/
+def idents : List B → List B → List (List B)
+  | [], cur => if cur.isEmpty then [] else [cur.reverse]
+  | c :: cs, cur => if isWordChar c then idents cs (c :: cur) else (if cur.isEmpty then [] else [cur.reverse]) ++ idents cs []
+
+theorem idents_nonword (c : B) (t : List B) (h : isWordChar c = false) : idents (c :: t) [] = idents t [] := by
+  simp [idents, h]
+
+/-- a run of identifier characters followed by the end of the text or by another character is one identifier -/
+theorem idents_word (wd : List B) : ∀ (cur r : List B), (∀ c ∈ wd, isWordChar c = true) →
+    (∀ c r', r = c :: r' → isWordChar c = false) →
+    idents (wd ++ r) cur = (if (cur.reverse ++ wd).isEmpty then [] else [cur.reverse ++ wd]) ++ idents r [] := by
+  induction wd with
+  | nil =>
+    intro cur r _ hr
+    cases r with
+    | nil => simp [idents]
+    | cons c r' => simp [idents, hr c r' rfl]
+  | cons c cs ih =>
+    intro cur r hwd hr
+    have hc := hwd c (by simp)
+    rw [List.cons_append, idents]
+    simp only [hc, if_true]
+    rw [ih (c :: cur) r (fun x hx => hwd x (by simp [hx])) hr]
+    simp
+
+theorem dropWhile_eq_drop (p : B → Bool) (l : List B) : l.dropWhile p = l.drop (l.takeWhile p).length := by
+  induction l with
+  | nil => rfl
+  | cons a t ih => by_cases h : p a <;> simp [List.dropWhile, List.takeWhile, h, ih]
+
+theorem dropWhile_head (p : B → Bool) (l : List B) : ∀ c r', l.dropWhile p = c :: r' → p c = false := by
+  induction l with
+  | nil => intro c r' h; simp at h
+  | cons a t ih =>
+    intro c r' h
+    by_cases ha : p a
+    · simp [List.dropWhile, ha] at h; exact ih c r' h
+    · simp [List.dropWhile, ha] at h; rw [← h.1]; simpa using ha
+
+theorem txt_drop (k : Nat) (l : List Ch) : txt (l.drop k) = (txt l).drop k := by
+  simp [txt, List.map_drop]
+
+theorem takeString_txt : ∀ (rest : List Ch), ∃ k, takeString rest = (txt (rest.take k), rest.drop k) ∧ k ≤ rest.length ∧
+    (rest.drop k = [] ∨ (txt (rest.take k)).getLast? = some 34) := by
+  intro rest
+  induction rest with
+  | nil => exact ⟨0, by simp [takeString, txt], by simp, Or.inl rfl⟩
+  | cons c t ih =>
+    obtain ⟨c0, l0⟩ := c
+    by_cases hq : c0 = 34
+    · subst hq
+      exact ⟨1, by simp [takeString, quote, txt], by simp, Or.inr (by simp [txt])⟩
+    · obtain ⟨k, hk, hle, hend⟩ := ih
+      refine ⟨k + 1, by simp [takeString, quote, hq, hk, txt], by simp; omega, ?_⟩
+      cases hend with
+      | inl h => exact Or.inl (by simpa using h)
+      | inr h =>
+        right
+        simp only [List.take_succ_cons, txt, List.map_cons] at h ⊢
+        cases hm : List.map (fun x => x.1) (List.take k t) with
+        | nil => rw [hm] at h; simp at h
+        | cons a as => rw [hm] at h; simpa [List.getLast?_cons_cons] using h
+
+/-- the identifiers behind a prefix that does not end in an identifier character are identifiers of the whole -/
+theorem idents_suffix (a : List B) : ∀ (b cur : List B), (a = [] → cur = []) → (∀ c, a.getLast? = some c → isWordChar c = false) →
+    ∀ w ∈ idents b [], w ∈ idents (a ++ b) cur := by
+  induction a with
+  | nil => intro b cur hc _ w hw; simpa [hc rfl] using hw
+  | cons c cs ih =>
+    intro b cur _ hl w hw
+    rw [List.cons_append, idents]
+    by_cases hcw : isWordChar c = true
+    · simp only [hcw, if_true]
+      have hne : cs ≠ [] := by
+        intro h; subst h
+        have := hl c (by simp)
+        rw [this] at hcw; cases hcw
+      exact ih b (c :: cur) (fun h => absurd h hne) (fun x hx => hl x (by
+        cases cs with
+        | nil => exact absurd rfl hne
+        | cons d ds => simpa [List.getLast?_cons_cons] using hx)) w hw
+    · simp only [hcw, Bool.false_eq_true, if_false]
+      apply List.mem_append_right
+      cases cs with
+      | nil => simpa using hw
+      | cons d ds =>
+        exact ih b [] (fun h => by cases h) (fun x hx => hl x (by simpa [List.getLast?_cons_cons] using hx)) w hw
+
+theorem takeWhile_eq_take (p : B → Bool) (l : List B) : l.takeWhile p = l.take (l.takeWhile p).length := by
+  induction l with
+  | nil => rfl
+  | cons a t ih => by_cases h : p a <;> simp [List.takeWhile, h]; exact ih
+
+theorem mem_takeWhile_p (p : B → Bool) (l : List B) : ∀ x ∈ l.takeWhile p, p x = true := by
+  induction l with
+  | nil => intro x hx; simp at hx
+  | cons a t ih =>
+    intro x hx
+    by_cases h : p a
+    · simp only [List.takeWhile, h, List.mem_cons] at hx
+      cases hx with
+      | inl e => rw [e]; exact h
+      | inr e => exact ih x e
+    · simp [List.takeWhile, h] at hx
+
+theorem length_takeWhile_le_len (p : B → Bool) (l : List B) : (l.takeWhile p).length ≤ l.length := by
+  induction l with
+  | nil => simp
+  | cons a t ih => by_cases h : p a <;> simp [List.takeWhile, h]; omega
+
+theorem txt_take (k : Nat) (l : List Ch) : txt (l.take k) = (txt l).take k := by
+  simp [txt, List.map_take]
+
+theorem txt_length (l : List Ch) : (txt l).length = l.length := by simp [txt]
+
+/-- one step over text that holds no `#` and no macro name: what was consumed is what is written -/
+theorem step_plain (e : Env) (f : Nat) (stack : List (List B)) (phys : List B) (st : St) (c : B) (l : Nat) (rest : List Ch) (bol : Bool) (ln : Nat)
+    (hw : st.writing = true) (hc : c ≠ 35)
+    (hid : ∀ w ∈ idents (c :: txt rest) [], st.table.find w = none) :
+    ∃ k, k ≤ rest.length ∧
+      (step e (f + 1) stack phys st (c, l) rest bol ln).map (fun r => (r.1, r.2.1)) =
+        .ok ({ st with out := st.out ++ c :: txt (rest.take k) }, rest.drop k) ∧
+      ∀ w ∈ idents (txt (rest.drop k)) [], st.table.find w = none := by
+  rw [step]
+  by_cases hq : c = 34
+  · subst hq
+    obtain ⟨k, hk, hle, hend⟩ := takeString_txt rest
+    refine ⟨k, hle, by simp [quote, hk, emit_active _ _ hw, Except.map], ?_⟩
+    intro w hw'
+    apply hid
+    have hsplit : (34 : B) :: txt rest = (34 :: txt (rest.take k)) ++ txt (rest.drop k) := by
+      simp [txt, ← List.map_append]
+    rw [hsplit]
+    cases hend with
+    | inl h => rw [h] at hw'; simp [txt, idents] at hw'
+    | inr h =>
+      apply idents_suffix _ _ _ (by simp) _ w hw'
+      intro x hx
+      have : x = 34 := by
+        cases hm : txt (rest.take k) with
+        | nil => rw [hm] at h; simp at h
+        | cons a as => rw [hm] at h hx; simp only [List.getLast?_cons_cons] at hx; rw [h] at hx; simpa using hx.symm
+      subst this; decide
+  · have hq' : (c == quote) = false := by simpa [quote] using hq
+    simp only [hq', Bool.false_eq_true, if_false]
+    by_cases hn : c = 10
+    · subst hn
+      refine ⟨0, by simp, by simp [nl, St.emitAlways, txt, Except.map], ?_⟩
+      intro w hw'
+      exact hid w (by rw [idents_nonword 10 _ (by decide)]; simpa using hw')
+    · have hn' : (c == nl) = false := by simpa [nl] using hn
+      have h35 : (c == 35) = false := by simpa using hc
+      simp only [hn', h35, Bool.false_and, Bool.false_eq_true, if_false]
+      by_cases hwc : isWordChar c = true
+      · simp only [hwc, if_true, hw, Bool.not_true, Bool.false_eq_true, if_false]
+        have htw : takeWord (c :: txt rest) = (c :: (txt rest).takeWhile isWordChar, (txt rest).dropWhile isWordChar) := by
+          simp [takeWord, List.takeWhile, List.dropWhile, hwc]
+        have hids : idents (c :: txt rest) [] = [c :: (txt rest).takeWhile isWordChar] ++ idents ((txt rest).dropWhile isWordChar) [] := by
+          have := idents_word (c :: (txt rest).takeWhile isWordChar) [] ((txt rest).dropWhile isWordChar)
+            (by intro x hx
+                simp only [List.mem_cons] at hx
+                cases hx with
+                | inl h => rw [h]; exact hwc
+                | inr h => exact mem_takeWhile_p _ _ _ h)
+            (dropWhile_head isWordChar (txt rest))
+          simpa [List.takeWhile_append_dropWhile] using this
+        have hnone : st.table.find (c :: (txt rest).takeWhile isWordChar) = none := hid _ (by rw [hids]; simp)
+        refine ⟨((txt rest).takeWhile isWordChar).length, ?_, ?_, ?_⟩
+        · have := length_takeWhile_le_len isWordChar (txt rest); simpa [txt_length] using this
+        · simp only [htw, hnone, List.length_cons, Nat.add_sub_cancel, emit_active _ _ hw, Except.map]
+          rw [txt_take, ← takeWhile_eq_take]
+        · intro w hw'
+          apply hid
+          rw [hids]
+          apply List.mem_append_right
+          rw [txt_drop, ← dropWhile_eq_drop] at hw'
+          exact hw'
+      · have hwc' : isWordChar c = false := by simpa using hwc
+        simp only [hwc', Bool.false_eq_true, if_false]
+        refine ⟨0, by simp, by simp [emit_active _ _ hw, txt, Except.map], ?_⟩
+        intro w hw'
+        exact hid w (by rw [idents_nonword c _ hwc']; simpa using hw')
+
+theorem map_ok_inv {α β : Type} (f : α → β) (x : Except Nat α) (y : β) (h : x.map f = .ok y) : ∃ z, x = .ok z ∧ f z = y := by
+  cases x with
+  | error c => simp [Except.map] at h
+  | ok z => exact ⟨z, rfl, by simpa [Except.map] using h⟩
+
+/-- the loop over text without `#` and without macro names writes exactly the text -/
+theorem loop_plain (e : Env) (stack : List (List B)) (phys : List B) : ∀ (n : Nat) (text : List Ch) (st : St) (bol : Bool) (ln : Nat),
+    text.length ≤ n → st.writing = true → (∀ c ∈ text, c.1 ≠ 35) →
+    (∀ w ∈ idents (txt text) [], st.table.find w = none) →
+    loop e (n + 2) stack phys st text bol ln = .ok { st with out := st.out ++ txt text } := by
+  intro n
+  induction n with
+  | zero =>
+    intro text st bol ln hlen _ _ _
+    have : text = [] := by cases text with | nil => rfl | cons _ _ => simp at hlen
+    subst this
+    simp [loop, txt]
+  | succ n ih =>
+    intro text st bol ln hlen hw h35 hid
+    cases text with
+    | nil => simp [loop, txt]
+    | cons ch rest =>
+      obtain ⟨c, l⟩ := ch
+      have hc : c ≠ 35 := h35 (c, l) (by simp)
+      obtain ⟨k, hk, hstep, hid'⟩ := step_plain e (n + 1) stack phys st c l rest bol ln hw hc (by simpa [txt] using hid)
+      obtain ⟨z, hz, hproj⟩ := map_ok_inv _ _ _ hstep
+      obtain ⟨st1, rest1, b1, l1⟩ := z
+      simp only [Prod.mk.injEq] at hproj
+      rw [loop, hz]
+      simp only []
+      obtain ⟨h1, h2⟩ := hproj
+      subst h1 h2
+      rw [ih (rest.drop k) { st with out := st.out ++ c :: txt (rest.take k) } b1 l1
+        (by simp at hlen ⊢; omega) hw (fun x hx => h35 x (by simp [List.mem_of_mem_drop hx])) hid']
+      simp only [txt, List.map_cons, List.append_assoc, List.cons_append]
+      congr 2
+      rw [← List.map_append, List.take_append_drop]
+
+/-- **Text containing no directive, macro name or comment passes through byte for byte**: a file without
+carriage returns, backslashes, slashes and `#` in which no identifier is a macro name is written to the
+output unchanged behind the `#line 0` marker of the file, and the macro table stays as it was -/
+theorem C13_plain_passthrough (e : Env) (stack : List (List B)) (table : Table) (virt text : List B)
+    (h1 : ∀ c ∈ text, c ≠ 13 ∧ c ≠ 92 ∧ c ≠ 47) (h2 : ∀ c ∈ text, c ≠ 35)
+    (h3 : ∀ w ∈ idents text [], table.find w = none) :
+    runFile e (text.length + 3) stack table virt text = .ok (table, lineMarker 0 (e.root ++ virt) ++ text) := by
+  rw [runFile]
+  have hs : txt (stripAll text) = text := strip_plain text false 1 h1
+  have hl : (stripAll text).length = text.length := by rw [← txt_length, hs]
+  have := loop_plain e ((e.root ++ virt) :: stack) (e.root ++ virt) text.length (stripAll text)
+    { table := table, out := lineMarker 0 (e.root ++ virt) } true 1 (by omega) rfl
+    (by intro c hc hc35
+        have : c.1 ∈ txt (stripAll text) := List.mem_map_of_mem (f := fun x : Ch => x.1) hc
+        rw [hs] at this
+        exact h2 c.1 this hc35)
+    (by rw [hs]; exact h3)
+  rw [this]
+  simp [hs]
+
+/-! ## Directives -/
+
+theorem find_define_same (t : Table) (m : Macro) : (t.define m).find m.name = some m := by
+  simp [Table.define, Table.find, List.find?]
+
+theorem find_define_other (t : Table) (m : Macro) (n : List B) (h : n ≠ m.name) : (t.define m).find n = t.find n := by
+  have hm : (m.name == n) = false := by simpa using fun e => h e.symm
+  simp only [Table.define, Table.find, List.find?, hm]
+  induction t with
+  | nil => rfl
+  | cons a as ih =>
+    by_cases ha : a.name = m.name
+    · have : (a.name == n) = false := by rw [ha]; exact hm
+      simp [List.filter, ha, List.find?, ih, hm]
+    · have hne : (a.name != m.name) = true := by simpa using ha
+      simp only [List.filter, hne, List.find?]
+      cases (a.name == n) <;> simp [ih]
+
+theorem find_undef_same (t : Table) (n : List B) : (t.undef n).find n = none := by
+  simp only [Table.undef, Table.find]
+  induction t with
+  | nil => rfl
+  | cons a as ih =>
+    by_cases ha : a.name = n
+    · simp [List.filter, ha, ih]
+    · have hne : (a.name != n) = true := by simpa using ha
+      have : (a.name == n) = false := by simpa using ha
+      simp [List.filter, hne, List.find?, this, ih]
+
+theorem find_undef_other (t : Table) (n k : List B) (h : k ≠ n) : (t.undef n).find k = t.find k := by
+  simp only [Table.undef, Table.find]
+  induction t with
+  | nil => rfl
+  | cons a as ih =>
+    by_cases ha : a.name = n
+    · have : (n == k) = false := by simpa using fun e => h e.symm
+      simp [List.filter, ha, List.find?, this, ih]
+    · have hne : (a.name != n) = true := by simpa using ha
+      simp only [List.filter, hne, List.find?]
+      cases (a.name == k) <;> simp [ih]
+
+/-- the line a directive consists of (behind its name), as the directive sees it -/
+def dirLine (rest : List Ch) (ln : Nat) : List B :=
+  trim (getLine (rest.drop (upper ((txt rest).takeWhile isWordChar)).length) false [] ln).1
+
+/-- **The directives are obeyed** (in an active section): `#define` enters the macro its line declares —
+replacing an earlier one of that name —, `#undef` removes the name, `#ifdef`/`#ifndef` open a section that
+writes exactly when the name is (not) defined, `#else` flips the innermost section, `#endif` closes it; each
+writes one newline in place of its line -/
+theorem C13_directives_obeyed (e : Env) (f : Nat) (stack : List (List B)) (phys : List B) (st : St) (rest : List Ch) (ln : Nat)
+    (hw : st.writing = true) (d : Dir) (hd : classify (upper ((txt rest).takeWhile isWordChar)) = d) :
+    (d = .define → ∃ pos, directive e (f + 1) stack phys st rest ln =
+        .ok ({ st with table := st.table.define (parseDefine (dirLine rest ln)), out := st.out ++ [nl] }, pos)) ∧
+    (d = .undef → ∃ pos, directive e (f + 1) stack phys st rest ln =
+        .ok ({ st with table := st.table.undef (dirLine rest ln), out := st.out ++ [nl] }, pos)) ∧
+    (d = .ifdef → ∃ pos, directive e (f + 1) stack phys st rest ln =
+        .ok ({ st with conds := (st.table.find (dirLine rest ln)).isSome :: st.conds, out := st.out ++ [nl] }, pos)) ∧
+    (d = .ifndef → ∃ pos, directive e (f + 1) stack phys st rest ln =
+        .ok ({ st with conds := (st.table.find (dirLine rest ln)).isNone :: st.conds, out := st.out ++ [nl] }, pos)) ∧
+    (d = .else_ → ∀ b cs, st.conds = b :: cs → ∃ pos, directive e (f + 1) stack phys st rest ln =
+        .ok ({ st with conds := (!b) :: cs, out := st.out ++ [nl] }, pos)) ∧
+    (d = .endif → ∀ b cs, st.conds = b :: cs → ∃ pos, directive e (f + 1) stack phys st rest ln =
+        .ok ({ st with conds := cs, out := st.out ++ [nl] }, pos)) := by
+  refine ⟨?_, ?_, ?_, ?_, ?_, ?_⟩ <;> intro hd'
+  all_goals subst hd'
+  all_goals rw [directive]
+  all_goals simp only [hd, hw, dirLine, St.emitAlways, Bool.not_true, Bool.false_eq_true, if_false]
+  · exact ⟨_, rfl⟩
+  · exact ⟨_, rfl⟩
+  · exact ⟨_, rfl⟩
+  · exact ⟨_, rfl⟩
+  · intro b cs hc; rw [hc]; exact ⟨_, rfl⟩
+  · intro b cs hc; rw [hc]; exact ⟨_, rfl⟩
+
+/-- writing is allowed exactly when every open conditional of the file holds: a section nested in an
+inactive one is inactive whatever its own condition says -/
+theorem C13_nested_inactive (st : St) (b : Bool) (h : st.writing = false) : ({ st with conds := b :: st.conds } : St).writing = false := by
+  simp only [St.writing, List.all_cons] at h ⊢
+  simp [h]
+
+/-! ## Non-vacuity: the reference on concrete sources (these are tests of the model, not the unbounded claims) -/
+
+def env0 : Env := { files := [(n!"/a.h", n!"#define Q 5\nin Q\n")], root := n!"/$R" }
+def out (text : List B) : Option (List B) := (run env0 builtins text).toOption
+def err (text : List B) : Option Nat := match run env0 builtins text with | .error c => some c | .ok _ => none
+def hdr : List B := n!"#line 0 \"/$R/main.sqf\"\n"
+
+-- comments go, strings stay, continuation joins
+example : out n!"a // c\nb /* x\ny */ c \"// /* M\" d\\\ne" = some (hdr ++ n!"a \nb \n c \"// /* M\" de") := by decide +kernel
+-- object-like and function-like macros, stringify, concatenate, whole identifiers only
+example : out n!"#define M 1\nM MM M1 _M xM M" = some (hdr ++ n!"\n1 MM M1 _M xM 1") := by decide +kernel
+example : out n!"#define F(A,B) A+#B##A\nF(1,x y)" = some (hdr ++ n!"\n1+\"x y\"1") := by decide +kernel
+example : out n!"#define Q(a) #a\n#define D(a,b) a##_##b\n#define G(v) D(ace,v)\n#define QG(v) Q(G(v))\nQG(x)" = some (hdr ++ n!"\n\n\n\n\"ace_x\"") := by decide +kernel
+-- brackets and strings inside arguments, a macro inside an argument, an empty argument
+example : out n!"#define P(a,b) <a|b>\n#define K 7\nP([1,2],\"x,y)\") P(K,) P((3,4),{5,6})" = some (hdr ++ n!"\n\n<[1,2]|\"x,y)\"> <7|> <(3,4)|{5,6}>") := by decide +kernel
+-- a parameter name inside a string or a longer identifier is not a parameter
+example : out n!"#define S(a) \"a\" a ab a_\nS(1)" = some (hdr ++ n!"\n\"a\" 1 ab a_") := by decide +kernel
+-- conditionals, nesting, undef
+example : out n!"#define X\n#ifdef X\nyes\n#else\nno\n#endif\n#undef X\n#ifdef X\nyes2\n#endif" = some (hdr ++ n!"\n\nyes\n\n\n\n\n\n\n\n") := by decide +kernel
+example : out n!"#ifdef NO\n#ifdef _SQFVM\nh1\n#else\nh2\n#endif\n#define Z 1\n#foo\n#else\nshown Z\n#endif" = some (hdr ++ n!"\n\n\n\n\n\n\n\n\nshown Z\n\n") := by decide +kernel
+-- include
+example : out n!"#include \"\\a.h\"\nQ" = some (hdr ++ n!"#line 1 \"/$R/a.h\"\n#line 0 \"/$R/a.h\"\n\nin 5\n\n#line 1 \"/$R/main.sqf\"\n5") := by decide +kernel
+-- errors
+example : err n!"#define A A\nA" = some errRecursiveMacro := by decide +kernel
+example : err n!"#define F(a,b) a\nF(1)" = some errArgCount := by decide +kernel
+example : err n!"#else" = some errUnexpectedElse := by decide +kernel
+example : err n!"#ifdef A\n" = some errMissingEndif := by decide +kernel
+example : err n!"x\n#bar\n" = some errUnknownInstruction := by decide +kernel
+-- the premises of the theorems are met by non-trivial inputs
+example : ∀ c ∈ n!"x = \"#define // /* M\" + y;", c ≠ 13 ∧ c ≠ 92 ∧ (c ≠ 47 ∨ True) := by decide
+example : idents n!"ab+c1 _d" [] = [n!"ab", n!"c1", n!"_d"] := by decide
 
 end Sqf.Props.C13
